@@ -188,9 +188,21 @@ InQuote == \E i \in DOMAIN open : open[i].kind = "quote"
 
 BlankLine == RStrip(PrefixRest(open))
 
-(* separator before a new sibling: "first" (nothing precedes it at this level), "none" or "blank" *)
-Seps == {"none", "blank"}
-SepLines(sep) == IF sep = "blank" THEN <<BlankLine>> ELSE << >>
+(* The Markdown renderer's own spelling of a blank line inside a block quote keeps the space after the innermost quote
+   marker ("> "); outside any quote it is the empty line.  "blankc" types that spelling, "blank" the stripped one. *)
+QuoteIdx(fr) == {i \in DOMAIN fr : fr[i].kind = "quote"}
+BlankC(fr) == IF QuoteIdx(fr) = {} THEN RStrip(PrefixRest(fr))
+              ELSE PrefixRest(SubSeq(fr, 1, CHOOSE q \in QuoteIdx(fr) : \A r \in QuoteIdx(fr) : r <= q))
+BlankOf(fr, sep) == IF sep = "blankc" THEN BlankC(fr) ELSE RStrip(PrefixRest(fr))
+
+(* separator before a new sibling: "none", "blank" or (inside a quote) "blankc" *)
+Seps == {"none", "blank"} \cup (IF InQuote THEN {"blankc"} ELSE {})
+IsBlank(sep) == sep \in {"blank", "blankc"}
+SepLines(sep) == IF IsBlank(sep) THEN <<BlankOf(open, sep)>> ELSE << >>
+
+(* tag "nc": the document uses a spelling the Markdown renderer does not write itself (it is not in the renderer's normal form) *)
+NcIf(c) == IF c THEN {"nc"} ELSE {}
+NcSep(sep) == NcIf(sep = "blank" /\ InQuote)
 
 (* may `next` follow the previous sibling without a blank line?  (CommonMark: what may interrupt a paragraph; nothing
    merges with a heading, a thematic break, a closed fence or a definition; a closed container needs a blank line
@@ -218,10 +230,10 @@ DefInItem == last.kind = "def" /\ open # << >> /\ Top.kind = "item"
 SepOk(sep, next) ==
     IF last.kind = "none" THEN sep = "none"
     ELSE IF DefInItem \/ (next = "def" /\ open # << >> /\ Top.kind = "item") THEN sep = "none" /\ NoBlankOk(next)
-    ELSE sep = "blank" \/ NoBlankOk(next)
+    ELSE IsBlank(sep) \/ NoBlankOk(next)
 
 (* a blank line between two direct children of a list item makes its list loose *)
-LooseAfter(sep) == IF sep = "blank" /\ open # << >> /\ Top.kind = "item" THEN loose \cup {Top.list} ELSE loose
+LooseAfter(sep) == IF IsBlank(sep) /\ open # << >> /\ Top.kind = "item" THEN loose \cup {Top.list} ELSE loose
 
 Node(t, p, ln, lv, tx, x) == [t |-> t, p |-> p, ln |-> ln, lv |-> lv, tx |-> tx, x |-> x]
 NoText == << >>
@@ -267,6 +279,7 @@ TypePara ==
           /\ Leaf("para", "para", sep, Node("Paragraph", Parent, 0, 0, tx, ""), lines, keep)
           /\ tags' = tags \cup (IF keep < Depth THEN {"lazy-continuation"} ELSE {}) \cup LazyTag(sep)
                           \cup (IF keep < Depth /\ KF_LazyIndented(keep, ind) THEN {"lazy-after-indented-quote-content"} ELSE {})
+                          \cup NcIf(ind > 0 \/ keep < Depth) \cup NcSep(sep)
 
 TypeAtx ==
     \E sep \in Seps, v \in Variants :
@@ -279,7 +292,7 @@ TypeAtx ==
        /\ IndOk(ind)
        /\ Leaf("atx", "atx", sep, Node("Heading", Parent, 0, lv, <<[atoms |-> l1, hard |-> FALSE]>>, ""),
                <<Spaces(ind) \o SubSeq("######", 1, lv) \o rest>>, Depth)
-       /\ UNCHANGED tags
+       /\ tags' = tags \cup NcSep(sep) \cup NcIf(ind > 0 \/ (IF empty THEN rest # "" ELSE closing \notin {"", " #", " ##"}))
 
 TypeSetext ==
     \E sep \in Seps, v \in Variants :
@@ -288,7 +301,7 @@ TypeSetext ==
            l1 == LineAt(v) IN
        /\ Leaf("setext", "setext", sep, Node("SetextHeading", Parent, 0, lv, <<[atoms |-> l1, hard |-> FALSE]>>, ""),
                <<LineSrc(l1), SubSeq(IF lv = 1 THEN "===" ELSE "---", 1, ul)>>, Depth)
-       /\ tags' = tags \cup (IF InQuote THEN {"setext-in-quote"} ELSE {}) \cup LazyTag(sep)
+       /\ tags' = tags \cup (IF InQuote THEN {"setext-in-quote"} ELSE {}) \cup LazyTag(sep) \cup NcSep(sep)
 
 (* a thematic break; "---" cannot follow paragraph text directly (it would be a setext underline), and on the first
    line of a bullet item the characters of the marker would merge with it *)
@@ -300,7 +313,7 @@ TypeHr ==
        /\ IndOk(ind)
        /\ ~(InItemFirstLine /\ Top.marker = ch)
        /\ Leaf(IF ch = "-" THEN "hr" ELSE "hrstar", "hr", sep, Node("ThematicBreak", Parent, 0, 0, NoText, ""), <<Spaces(ind) \o h>>, Depth)
-       /\ UNCHANGED tags
+       /\ tags' = tags \cup NcSep(sep) \cup NcIf(ind > 0)
 
 Bodies == Pick(<< <<"a", "", "  b">> >>, << << >>, <<"a", "", "  b">> >>,
                << << >>, <<"code">>, <<"a", "", "  b">>, <<"# not a heading", "> nor a quote">>, <<"- x", "***">> >>)
@@ -318,40 +331,58 @@ TypeFence ==
                     \o <<Spaces(ind) \o fence \o SubSeq(fence, 1, closeExtra)>> IN
        /\ IndOk(ind)
        /\ Leaf("fence", "fence", sep, Node("CodeFence", Parent, 0, 0, NoText, [info |-> info, body |-> body]), lines, Depth)
-       /\ UNCHANGED tags
+       /\ tags' = tags \cup NcSep(sep) \cup NcIf(closeExtra = 1 \/ (InQuote /\ \E i \in DOMAIN body : body[i] = ""))
 
 (* indented code: never directly after paragraph text, not after another indented code block or a list (it would
    merge), not as the first block of a list item (the indentation would be marker padding) *)
 TypeIndented ==
-    \E two \in BOOLEAN :
+    \E two \in BOOLEAN, sep \in Seps :
+       /\ (sep = "none") = (last.kind = "none")
        /\ last.kind \notin {"code", "list"}
        /\ (InItemFirstLine => Top.pad = 1)      \* "-     code": one space of padding, then the four of the code block
        /\ ~DefInItem
-       /\ LET body == IF two THEN <<"code one", "  code two">> ELSE <<"code one">>
-              sep == IF last.kind = "none" THEN "none" ELSE "blank" IN
+       /\ LET body == IF two THEN <<"code one", "  code two">> ELSE <<"code one">> IN
           Leaf("code", "code", sep, Node("BlockCode", Parent, 0, 0, NoText, [info |-> "", body |-> body]),
                [i \in DOMAIN body |-> "    " \o body[i]], Depth)
-       /\ UNCHANGED tags
+       /\ tags' = tags \cup NcSep(sep)
 
 (* GFM table: header row, delimiter row, one or two body rows (a short row is padded with empty cells).  Always typed
    after a blank line and followed by one: a table may swallow or be swallowed by adjacent paragraph text. *)
+Dashes(n) == SubSeq("------------------------------", 1, n)
+Max2(a, b) == IF a > b THEN a ELSE b
+RECURSIVE MaxLen(_, _)
+MaxLen(ss, c) == IF ss = << >> THEN 0 ELSE Max2(IF c <= Len(Head(ss)) THEN Len(Head(ss)[c]) ELSE 0, MaxLen(Tail(ss), c))
+AlignKind(a) == IF SubSeq(a, 1, 1) = ":" /\ SubSeq(a, Len(a), Len(a)) = ":" THEN "center"
+                ELSE IF SubSeq(a, Len(a), Len(a)) = ":" THEN "right" ELSE "left"
+(* the Markdown renderer's own layout of a table: every column as wide as its widest cell (at least 3), cells padded
+   according to the alignment (centred text gets the odd space on the right), dashes across the whole width *)
+PadCell(t, w, k) == LET n == w - Len(t) IN
+                    CASE k = "left" -> t \o Spaces(n) [] k = "right" -> Spaces(n) \o t [] OTHER -> Spaces(n \div 2) \o t \o Spaces(n - n \div 2)
+DelimCell(w, k) == CASE k = "left" -> Dashes(w) [] k = "right" -> Dashes(w - 1) \o ":" [] OTHER -> ":" \o Dashes(w - 2) \o ":"
+
 TypeTable ==
-    \E v \in Variants :
-       LET outer == v % 2 = 0                                   \* leading and trailing pipes
-           aligns == At(<< <<"---", "---">>, <<":--", ":-:">>, <<"--:", "-">>, <<":---:", "---">> >>, v)
+    \E v \in Variants, sep \in Seps :
+       LET esc == (v + 2 * nblocks) % 4 = 3                         \* escaped pipes inside cells (plain text and code span)
+           canon == v % 4 = 1                                       \* laid out the way the Markdown renderer lays tables out
+           outer == v % 2 = 0 \/ canon                              \* leading and trailing pipes
+           aligns0 == At(<< <<"---", "---">>, <<":--", ":-:">>, <<"--:", "-">>, <<":---:", "---">> >>, v)
            w == WordAt(nblocks + 1)
            hdr == <<"h" \o w, "*em*">>
-           esc == (v + 2 * nblocks) % 4 = 3                         \* escaped pipes inside cells (plain text and code span)
-           rows == IF esc THEN << <<"x \\| y", "`p \\| q`">> >> ELSE IF v % 3 = 0 THEN << <<w, "two">> >> ELSE IF v % 3 = 1 THEN << <<w, "`co`">>, <<"short">> >> ELSE << <<"a " \o w, "b">>, <<"c", "d">> >>
-           Line(cells) == IF outer THEN "| " \o Join(cells, " | ") \o " |" ELSE Join(cells, " | ")
-           DLine == IF outer THEN "|" \o Join(aligns, "|") \o "|" ELSE Join(aligns, " | ")
+           rows == IF esc THEN << <<"x \\| y", "`p \\| q`">> >> ELSE IF v % 3 = 0 THEN << <<w, "two">> >>
+                   ELSE IF v % 3 = 1 /\ ~canon THEN << <<w, "`co`">>, <<"short">> >> ELSE << <<"a " \o w, "b">>, <<"c", "d">> >>
+           width(c) == Max2(3, MaxLen(<<hdr>> \o rows, c))
+           kind(c) == AlignKind(aligns0[c])
+           aligns == IF canon THEN [c \in 1..2 |-> DelimCell(width(c), kind(c))] ELSE aligns0
+           Cells(cells) == IF canon THEN [c \in 1..2 |-> PadCell(cells[c], width(c), kind(c))] ELSE cells
+           Line(cells) == IF outer THEN "| " \o Join(Cells(cells), " | ") \o " |" ELSE Join(cells, " | ")
+           DLine == IF canon THEN "| " \o Join(aligns, " | ") \o " |" ELSE IF outer THEN "|" \o Join(aligns, "|") \o "|" ELSE Join(aligns, " | ")
            lines == <<Line(hdr), DLine>> \o [i \in DOMAIN rows |-> IF Len(rows[i]) = 1 /\ ~outer THEN rows[i][1] \o " |" ELSE Line(rows[i])]
-           sep == IF last.kind = "none" THEN "none" ELSE "blank"
            base == Len(src) + Len(SepLines(sep))
            tid == Len(nodes) + 1
            rowNodes(i) == <<Node("TableRow", tid, base + 2 + i, 0, NoText, "")>>
                           \o [c \in 1..2 |-> Node("TableCell", tid + 1 + 3 * (i - 1), base + 2 + i, 0, NoText, "")]
            allRows == IF Len(rows) = 1 THEN rowNodes(1) ELSE rowNodes(1) \o rowNodes(2) IN
+       /\ (sep = "none") = (last.kind = "none")
        /\ Budget /\ FirstKindOk("table")
        /\ ~DefInItem
        /\ src' = src \o SepLines(sep) \o <<LineNow(lines[1])>> \o [i \in 1..(Len(lines) - 1) |-> LineRest(lines[i + 1])]
@@ -360,7 +391,7 @@ TypeTable ==
        /\ open' = Started(open)
        /\ last' = [kind |-> "table", mtype |-> "", inner |-> "table"]
        /\ nblocks' = nblocks + 1
-       /\ tags' = tags \cup (IF InItemFirstLine THEN {"table-on-marker-line"} ELSE {})
+       /\ tags' = tags \cup (IF InItemFirstLine THEN {"table-on-marker-line"} ELSE {}) \cup NcSep(sep) \cup NcIf(~canon)
        /\ UNCHANGED <<defs, phase, target>>
 
 (* HTML block: type 6 (<div>, ends at a blank line), type 1 (<pre>, ends at its end tag, may hold blank lines), type 2
@@ -371,7 +402,7 @@ TypeHtml ==
        LET body == At(HtmlBodies, v) IN
        /\ ~InItemFirstLine \/ TRUE
        /\ Leaf("html", "html", sep, Node("HtmlBlock", Parent, 0, 0, NoText, [body |-> body]), body, Depth)
-       /\ UNCHANGED tags
+       /\ tags' = tags \cup NcSep(sep) \cup NcIf(InQuote /\ \E i \in DOMAIN body : body[i] = "")
 
 (* link reference definition: no node, no output *)
 Dests  == Pick({"/u1", "/u2"}, {"/u1", "/u2"}, {"/u1", "/u2", "<a b>"})
@@ -393,7 +424,7 @@ TypeDef ==
        /\ open' = Started(open)
        /\ last' = [kind |-> "def", mtype |-> "", inner |-> "def"]
        /\ nblocks' = nblocks + 1
-       /\ tags' = tags \cup LazyTag(sep)
+       /\ tags' = tags \cup LazyTag(sep) \cup NcSep(sep)
        /\ UNCHANGED <<nodes, phase, target>>
 
 ---------------------------------------------------------------------------
@@ -412,7 +443,7 @@ OpenQuote ==
        /\ loose' = LooseAfter(sep)
        /\ last' = [kind |-> "none", mtype |-> "", inner |-> "none"]
        /\ nblocks' = IF bs THEN nblocks + 1 ELSE nblocks
-       /\ tags' = tags \cup (IF bs THEN {"quote-begins-with-blank-line"} ELSE {})
+       /\ tags' = tags \cup (IF bs THEN {"quote-begins-with-blank-line"} ELSE {}) \cup NcSep(sep) \cup NcIf(bare \/ bs)
        /\ UNCHANGED <<defs, phase, target>>
 
 Bullets == {"-", "+", "*"}
@@ -457,7 +488,7 @@ OpenList ==
                         ELSE Append(open, ItemFrame(Len(nodes) + 1, Len(nodes) + 2, m, indent, pad))
        /\ loose' = LooseAfter(sep)
        /\ last' = [kind |-> "none", mtype |-> "", inner |-> "none"]
-       /\ tags' = tags \cup (IF bs THEN {"item-begins-with-blank-line"} ELSE {})
+       /\ tags' = tags \cup (IF bs THEN {"item-begins-with-blank-line"} ELSE {}) \cup NcSep(sep) \cup NcIf(bs)
                        \cup (IF SepKind(m) = "olist" THEN LazyTag(sep) ELSE {})      \* cannot interrupt a paragraph, so it is what the reader takes for lazy text
        /\ nblocks' = IF bs THEN nblocks + 1 ELSE nblocks       \* an item that may stay empty counts against the budget
        /\ UNCHANGED <<defs, phase, target>>
@@ -469,15 +500,14 @@ NextItem ==
        /\ (sep = "none" /\ bs => last.kind # "para")                    \* a lone "-" under paragraph text is a setext underline
        /\ LET m == IF Top.num = 0 /\ Top.marker \in Bullets THEN [b |-> Top.marker] ELSE [n |-> Top.num + 1, d |-> Top.mtype]
               outer == SubSeq(open, 1, Len(open) - 1)
-              blank == RStrip(PrefixRest(outer))
-              sl == IF sep = "blank" THEN <<blank>> ELSE << >> IN
+              sl == IF IsBlank(sep) THEN <<BlankOf(outer, sep)>> ELSE << >> IN
           /\ src' = IF bs THEN src \o sl \o <<Assemble(outer, "rest", 0, Spaces(Top.indent) \o MarkerStr(m))>> ELSE src \o sl
           /\ nodes' = Append(nodes, Node("ListItem", Top.list, Len(src) + Len(sl) + 1, 0, NoText, ""))
           /\ open' = IF bs THEN Append(outer, EmptyStartFrame(Top.list, Len(nodes) + 1, m, Top.indent))
                            ELSE Append(outer, ItemFrame(Top.list, Len(nodes) + 1, m, Top.indent, pad))
-          /\ loose' = IF sep = "blank" THEN loose \cup {Top.list} ELSE loose
+          /\ loose' = IF IsBlank(sep) THEN loose \cup {Top.list} ELSE loose
        /\ last' = [kind |-> "none", mtype |-> "", inner |-> "none"]
-       /\ tags' = tags \cup (IF bs THEN {"item-begins-with-blank-line"} ELSE {})
+       /\ tags' = tags \cup (IF bs THEN {"item-begins-with-blank-line"} ELSE {}) \cup NcSep(sep) \cup NcIf(bs)
        /\ nblocks' = IF bs THEN nblocks + 1 ELSE nblocks
        /\ UNCHANGED <<defs, phase, target>>
 
